@@ -47,8 +47,24 @@ ASSUMPTIONS = [
 MIB = 2**20
 TEXT_CHARS = set(range(32, 127)) | {10, 13, 9, 12, 8}
 _TEXT_BYTES = bytes(sorted(TEXT_CHARS))
-BASES = ["md5", "sha1", "sha224", "sha256", "sha512", "sha3_256", "blake2b", "blake2s", "blake3",
-         "md5-dos2unix"]
+NAMED = ["md5", "sha1", "sha224", "sha256", "sha512", "sha3_256", "blake2b", "blake2s", "blake3"]
+
+
+def _hashlib_names():
+    """Every name hashlib offers here that has a parameterless hexdigest() (shake_* need a length)."""
+    out = []
+    for n in sorted(hashlib.algorithms_available):
+        try:
+            hashlib.new(n).hexdigest()
+        except (TypeError, ValueError):
+            continue
+        out.append(n.lower())
+    return sorted(set(out))
+
+
+# hashlib.new()-only algorithms (no named constructor): sha512_224, sha512_256, sm3, ripemd160, md5-sha1 ...
+FALLBACK = [n for n in _hashlib_names() if not hasattr(hashlib, n)]
+BASES = sorted(set(NAMED) | set(_hashlib_names())) + ["md5-dos2unix"]
 LEGACY = "md5-dos2unix"
 
 
@@ -145,10 +161,13 @@ LEGACY_READS = st.one_of(
 )
 
 
+PRE = ["h:78", "p:hello", "p:crlf", "p:A", "h:00ff", "p:b513", "p:C"]
+
+
 @st.composite
 def cases(draw):
     entry = draw(st.sampled_from(["stream", "stream", "stream", "fobj", "fobj", "file", "hash_file", "pair"]))
-    base = draw(st.sampled_from(BASES + [LEGACY, LEGACY, "md5"]))
+    base = draw(st.sampled_from(BASES + [LEGACY] * 5 + ["md5"] * 2 + FALLBACK))
     if entry == "pair":
         base = LEGACY
     legacy = base == LEGACY
@@ -186,6 +205,8 @@ def cases(draw):
     if "content" not in case:
         case["content"] = draw(content_segs(text_only=legacy and draw(st.booleans())))
     case["algo"] = spell(base, mask)
+    # hashed first, with the same algorithm name through the same entry point ("twice in a row"); never empty
+    case["pre"] = draw(st.sampled_from(PRE))
     return case
 
 
@@ -345,6 +366,26 @@ def digest_via(sub, content, slack, d, viols, tag):
     return file_md5(p, LocalFileSystem(), name=LEGACY)
 
 
+def pre_digest(case, base, data, ctx):
+    """Digest of `data` with the case's algorithm spelling through the case's entry point (one read)."""
+    from dvc_data.hashfile.hash import file_md5, fobj_md5, hash_file
+
+    entry = case["entry"]
+    if entry == "stream":
+        spy = Spy(data)
+        stream = make_stream(case, spy, base)
+        while stream.read(max(512, len(data))):
+            pass
+        return stream.hash_value
+    if entry == "fobj":
+        return fobj_md5(io.BytesIO(data), name=case["algo"])
+    with ctx.tmpdir() as d:
+        fs, path = put_file(case, d, data)
+        if entry == "file":
+            return file_md5(path, fs, name=case["algo"])
+        return hash_file(path, fs, case["algo"])[1].value
+
+
 def run_case(case, ctx):
     from dvc_data.hashfile.hash import file_md5, fobj_md5, hash_file
 
@@ -357,6 +398,16 @@ def run_case(case, ctx):
     nreads = 1
     if algo != base:
         classes.append("case-variant")
+    if base in FALLBACK:
+        classes.append("hashlib.new-only-algo")
+    if case.get("pre") and entry != "pair":
+        pre = gen.content_bytes(case["pre"])
+        got = pre_digest(case, base, pre, ctx)
+        want = ref_digest(pre, base)
+        classes.append("twice-in-a-row")
+        if got != want:
+            viols.append(Viol(f"digest:first-of-two:{entry}", f"{base} digest of the first content ({len(pre)} B) is "
+                                                              f"{got}, reference {want}"))
 
     if entry == "stream":
         spy = Spy(content, case["short"])
